@@ -13,6 +13,7 @@ mod c10;
 mod c10net;
 mod c11;
 mod c12;
+mod apinode;
 mod c14;
 mod storeops;
 mod storeprops;
@@ -152,6 +153,69 @@ fn run2<P: Property, Q: Property>(p: P, q: Q, tag: &str, args: &[String], quick:
     }
 }
 
+
+/// any number of harnesses under one property id; the first one owns replays without a prefix
+struct Part {
+    prefix: &'static str,
+    tag: &'static str,
+    cases: (usize, usize),
+    run: Box<dyn Fn(&RunCfg) -> anyhow::Result<RunReport>>,
+    replay: Box<dyn Fn(&std::path::Path) -> anyhow::Result<bool>>,
+}
+
+fn part<P: Property + 'static>(p: P, tag: &'static str, cases: (usize, usize)) -> Part {
+    let p = std::sync::Arc::new(p);
+    let p2 = p.clone();
+    Part {
+        prefix: p.case_prefix(),
+        tag,
+        cases,
+        run: Box::new(move |cfg| run_property(&*p, cfg)),
+        replay: Box::new(move |path| replay_property(&*p2, path)),
+    }
+}
+
+fn run_parts(id: &'static str, parts: Vec<Part>, args: &[String]) -> ! {
+    if let Some(path) = arg(args, "--replay") {
+        let path = PathBuf::from(path);
+        let name = path.file_name().and_then(|f| f.to_str()).unwrap_or("").to_string();
+        let idx = parts.iter().position(|p| !p.prefix.is_empty() && name.contains(p.prefix)).unwrap_or(0);
+        let ok = (parts[idx].replay)(&path).unwrap_or_else(|e| {
+            println!("replay failed: {e:#}");
+            false
+        });
+        println!("replay: {}", if ok { "no mismatch (case passes)" } else { "case fails" });
+        std::process::exit(if ok { 0 } else { 1 });
+    }
+    let thorough = arg(args, "--tier").as_deref() == Some("thorough");
+    let seed: u64 = arg(args, "--seed").and_then(|s| s.parse().ok()).unwrap_or(1);
+    let mk = |cases: usize| RunCfg {
+        seed,
+        thorough,
+        cases,
+        replay_dir: PathBuf::from(arg(args, "--replay-dir").unwrap_or("/verif/replays".into())),
+        threads: arg(args, "--threads").and_then(|s| s.parse().ok()).unwrap_or(12),
+        budget_secs: std::env::var("VERIF_BUDGET_SECS").ok().and_then(|s| s.parse().ok()).unwrap_or(if thorough { 3000 } else { 300 }),
+    };
+    let out = arg(args, "--out").map(PathBuf::from);
+    start_watchdog(id, mk(0).replay_dir.clone(), std::time::Duration::from_secs(std::env::var("VERIF_HANG_SECS").ok().and_then(|s| s.parse().ok()).unwrap_or(120)));
+    // `--cases N` (the search after a broken proof obligation) scales every part alike
+    let scale = arg(args, "--cases").and_then(|s| s.parse::<usize>().ok());
+    let mut report: Option<RunReport> = None;
+    for p in &parts {
+        let base = if thorough { p.cases.1 } else { p.cases.0 };
+        let n = match scale { Some(c) => (c * base / parts[0].cases.0.max(1)).max(base), None => base };
+        match (p.run)(&mk(n)) {
+            Ok(r) => report = Some(match report.take() { None => r, Some(acc) => merge_reports(acc, r, p.tag) }),
+            Err(e) => {
+                println!("harness error: {e:#}");
+                std::process::exit(2)
+            }
+        }
+    }
+    print_and_exit(&report.expect("at least one part"), out.as_deref())
+}
+
 fn main() {
     // panics inside cases are caught and reported; keep stderr quiet
     std::panic::set_hook(Box::new(|_| {}));
@@ -162,18 +226,19 @@ fn main() {
         "C02" => run(c02::C02::new(listed_findings("C02")), &args, 3000, 60000),
         "C03" => run(c03::C03::new(), &args, 1500, 40000),
         "C04" => run2(c04::C04::new(), c04sys::C04Sys::new(), "system", &args, (300, 6), (6000, 80)),
-        "C05" => run(c05::C05::new(), &args, 2500, 40000),
+        "C05" => run_parts("C05", vec![part(c05::C05::new(), "", (2500, 40000)), part(apinode::ApiNode::new("C05"), "node", (60, 1500))], &args),
         "C06" => run(c06::C06::new(), &args, 250, 4000),
         "C08" => run(c08::C08::new(), &args, 700, 20000),
         "C09" => run(c09::C09::new(), &args, 400, 8000),
         "C10" => run2(c10::C10::new(), c10net::C10Net::new(), "connection", &args, (300, 60), (5000, 1500)),
         "C11" => run(c11::C11::new(), &args, 600, 10000),
-        "C12" => run(c12::C12::new(), &args, 600, 10000),
+        "C12" => run_parts("C12", vec![part(c12::C12::new(), "", (600, 10000)), part(apinode::ApiNode::new("C12"), "node", (60, 1500))], &args),
         "C13" => run(storeprops::StoreProp::new("C13"), &args, 2500, 40000),
-        "C16" => run2(storeprops::StoreProp::new("C16"), c14::C14::removal(), "actor", &args, (1500, 300), (20000, 5000)),
-        "C17" => run(storeprops::StoreProp::new("C17"), &args, 2000, 30000),
-        "C14" => run(c14::C14::new(), &args, 500, 8000),
-        "C15" => run(storeprops::StoreProp::new("C15"), &args, 2000, 30000),
+        "C16" => run_parts("C16", vec![part(storeprops::StoreProp::new("C16"), "", (1500, 20000)), part(c14::C14::removal(), "actor", (300, 5000)), part(apinode::ApiNode::new("C16"), "node", (60, 1500))], &args),
+        "C17" => run_parts("C17", vec![part(storeprops::StoreProp::new("C17"), "", (2000, 30000)), part(apinode::ApiNode::new("C17"), "node", (60, 1500))], &args),
+        "C14" => run_parts("C14", vec![part(c14::C14::new(), "", (500, 8000)), part(apinode::ApiNode::new("C14"), "node", (60, 1500))], &args),
+        "C15" => run_parts("C15", vec![part(storeprops::StoreProp::new("C15"), "", (2000, 30000)), part(apinode::ApiNode::new("C15"), "node", (60, 1500))], &args),
+        "NODE" => run(apinode::ApiNode::new("NODE"), &args, 60, 1500),
         "C18" => run(storeprops::StoreProp::new("C18"), &args, 300, 4000),
         "C07" => run3(storeprops::StoreProp::new("C07"), c14::C14::capabilities(), c07api::C07Api::new(), &args, (2000, 400, 150), (30000, 6000, 2500)),
         _ => {
